@@ -121,11 +121,31 @@ def _match_call(call: ast.Call, helpers: Dict[Tuple[Optional[str], str], _Helper
         return h
     if isinstance(f, ast.Attribute) and isinstance(f.value, ast.Name):
         if f.value.id in ("self", "cls") and cur_cls is not None:
-            return helpers.get((cur_cls, f.attr))
+            h = helpers.get((cur_cls, f.attr))
+            if h is not None:
+                return h
+            # a helper defined in a base class of the same module (and not overridden on the way)
+            seen = set()
+            todo = list(_BASES.get(cur_cls, []))
+            while todo:
+                b = todo.pop(0)
+                if b in seen:
+                    continue
+                seen.add(b)
+                if (b, f.attr) in helpers:
+                    return helpers[(b, f.attr)]
+                if f.attr in _METHODS.get(b, ()):
+                    return None  # a reference-tree method of that name exists on the way: not a new helper
+                todo.extend(_BASES.get(b, []))
+            return None
         h = helpers.get((f.value.id, f.attr))
         if h is not None and h.static:
             return h
     return None
+
+
+_BASES: Dict[str, List[str]] = {}
+_METHODS: Dict[str, Set[str]] = {}
 
 
 def _bind(h: _Helper, call: ast.Call, caller_names: Set[str], counter: List[int]) -> Optional[Tuple[List[ast.stmt], Dict[str, ast.expr], Dict[str, str]]]:
@@ -466,6 +486,99 @@ def _coalesce_aliases(fn: ast.FunctionDef) -> bool:
     return changed
 
 
+def _inline_local_closures(fn: ast.FunctionDef) -> bool:
+    """A zero-argument local closure with a single returned expression,
+
+        def g(): return E
+        ...  S[g()]  ...
+
+    is replaced at its call sites by a hoisted binding `g_value = E; S[g_value]`
+    when `g` is only ever called (never passed on), the call is the first
+    evaluated call of its statement, and no free variable of E is re-bound after
+    the definition of g.  (What remains after a helper that *takes* a callable has
+    been inlined.)"""
+    changed = False
+    for i, st in enumerate(list(fn.body)):
+        if not (isinstance(st, ast.FunctionDef) and not st.args.args and not st.args.vararg and not st.args.kwarg and not st.args.kwonlyargs and not st.decorator_list):
+            continue
+        body = [b for b in st.body if not (isinstance(b, ast.Expr) and isinstance(b.value, ast.Constant))]
+        if len(body) != 1 or not isinstance(body[0], ast.Return) or body[0].value is None:
+            continue
+        g = st.name
+        E = body[0].value
+        refs = [x for x in ast.walk(fn) if isinstance(x, ast.Name) and x.id == g]
+        calls = [x for x in ast.walk(fn) if isinstance(x, ast.Call) and isinstance(x.func, ast.Name) and x.func.id == g and not x.args and not x.keywords]
+        if not calls or len(refs) != len(calls):
+            continue
+        free = {x.id for x in ast.walk(E) if isinstance(x, ast.Name)}
+        def_pos = (st.lineno, st.col_offset) if hasattr(st, "lineno") else (0, 0)
+        rebound = [x for x in ast.walk(fn) if isinstance(x, ast.Name) and isinstance(x.ctx, (ast.Store, ast.Del)) and x.id in free
+                   and (getattr(x, "lineno", 0), getattr(x, "col_offset", 0)) > def_pos and not any(x is y for y in ast.walk(st))]
+        if rebound:
+            continue
+        tmp = g + "_value"
+        if any(isinstance(x, ast.Name) and x.id == tmp for x in ast.walk(fn)):
+            continue
+        ok = [True]
+
+        def rewrite(stmts: List[ast.stmt]) -> List[ast.stmt]:
+            out = []
+            for s2 in stmts:
+                if s2 is st:
+                    continue  # drop the closure definition
+                for fld in ("body", "orelse", "finalbody"):
+                    sub = getattr(s2, fld, None)
+                    if isinstance(sub, list) and sub and isinstance(sub[0], ast.stmt) and not isinstance(s2, (ast.FunctionDef, ast.ClassDef)):
+                        setattr(s2, fld, rewrite(sub))
+                if isinstance(s2, ast.Try):
+                    for h in s2.handlers:
+                        h.body = rewrite(h.body)
+                # calls of g in the statement's own expressions (not in nested blocks)
+                own = []
+                for fld, val in ast.iter_fields(s2):
+                    if fld in ("body", "orelse", "finalbody", "handlers"):
+                        continue
+                    vals = val if isinstance(val, list) else [val]
+                    for v in vals:
+                        if isinstance(v, ast.AST):
+                            own += [x for x in ast.walk(v) if isinstance(x, ast.Call)]
+                mine = [c for c in own if c in calls]
+                if not mine:
+                    out.append(s2)
+                    continue
+                if len(mine) != 1 or isinstance(s2, (ast.While, ast.For)):
+                    ok[0] = False
+                    out.append(s2)
+                    continue
+                # the closure call must be the first call evaluated in the statement
+                first_call = own[0] if own else None
+                order = sorted(own, key=lambda c: (getattr(c, "lineno", 0), getattr(c, "col_offset", 0)))
+                inner_first = [c for c in order if not any((d is not c) and any(y is d for y in ast.walk(c)) for d in order if d is not c)]
+                if not inner_first or inner_first[0] is not mine[0]:
+                    ok[0] = False
+                    out.append(s2)
+                    continue
+
+                class Sub(ast.NodeTransformer):
+                    def visit_Call(self, node):
+                        if node is mine[0]:
+                            return ast.Name(id=tmp, ctx=ast.Load())
+                        return self.generic_visit(node)
+
+                out.append(ast.Assign(targets=[ast.Name(id=tmp, ctx=ast.Store())], value=copy.deepcopy(E)))
+                out.append(Sub().visit(s2))
+            return out
+
+        backup = copy.deepcopy(fn.body)
+        fn.body = rewrite(fn.body)
+        if not ok[0]:
+            fn.body = backup
+            continue
+        changed = True
+        ast.fix_missing_locations(fn)
+    return changed
+
+
 def _sink_returns(fn: ast.FunctionDef) -> bool:
     """Single-exit spelling -> returns at the points of definition:
 
@@ -551,6 +664,12 @@ def normalize_sources(sources: Dict[str, str], table: Optional[Set[str]] = None)
             modname = modname[: -len(".__init__")]
         tree = ast.parse(src)
         changed_any = False
+        _BASES.clear()
+        _METHODS.clear()
+        for st in tree.body:
+            if isinstance(st, ast.ClassDef):
+                _BASES[st.name] = [b.id for b in st.bases if isinstance(b, ast.Name)]
+                _METHODS[st.name] = {x.name for x in st.body if isinstance(x, ast.FunctionDef)}
         for _round in range(3):
             helpers: Dict[Tuple[Optional[str], str], _Helper] = {}
             for st in tree.body:
@@ -616,11 +735,13 @@ def normalize_sources(sources: Dict[str, str], table: Optional[Set[str]] = None)
             tree = ast.parse(ast.unparse(tree))
             for st in tree.body:
                 if isinstance(st, ast.FunctionDef):
+                    _inline_local_closures(st)
                     _coalesce_aliases(st)
                     _canonical_loops(st)
                 elif isinstance(st, ast.ClassDef):
                     for s2 in st.body:
                         if isinstance(s2, ast.FunctionDef):
+                            _inline_local_closures(s2)
                             _coalesce_aliases(s2)
                             _canonical_loops(s2)
             ast.fix_missing_locations(tree)
